@@ -507,6 +507,31 @@ struct Facts {
     /// largest breadth-first distance (in edges) from node 0 to a reachable claim: some claim is
     /// *over-deep* — every path from the root to it has at least `lim` edges — iff this is ≥ lim
     max_dist: usize,
+    /// largest `dist(u) + 1` over the references u → v (v an existing claim) of reachable claims:
+    /// the shallowest depth at which the reference *can* be followed, whatever the order
+    max_edge_dist: usize,
+    /// the nesting depth the walk in ingredient order reaches: depth-first from node 0, ingredient
+    /// assertions in order, every claim expanded at its first arrival only; the largest depth
+    /// (= number of claims on the path above) of any arrival, first or repeated. Only meaningful
+    /// for graphs without a reachable cycle.
+    walk_max: usize,
+}
+
+fn walk_arrivals(g: &Graph, u: usize, depth: usize, memo: &mut [bool], on_path: &mut [bool], maxd: &mut usize) {
+    *maxd = (*maxd).max(depth);
+    if memo[u] {
+        return;
+    }
+    memo[u] = true;
+    on_path[u] = true;
+    for i in &g[u].ings {
+        if let Some(t) = i.target {
+            if t < g.len() && !on_path[t] {
+                walk_arrivals(g, t, depth + 1, memo, on_path, maxd);
+            }
+        }
+    }
+    on_path[u] = false;
 }
 
 fn facts(g: &Graph) -> Facts {
@@ -610,7 +635,17 @@ fn facts(g: &Graph) -> Facts {
         }
     }
     let max_dist = dist.iter().filter(|d| **d != usize::MAX).max().copied().unwrap_or(0);
-    Facts { reach, edges, cyc, dangling, head_chain, dangling_edges, reach_edges, ref_pairs, max_dist }
+    let mut max_edge_dist = 0;
+    for u in 0..n {
+        if reach[u] && g[u].ings.iter().any(|i| matches!(i.target, Some(t) if t < n)) {
+            max_edge_dist = max_edge_dist.max(dist[u] + 1);
+        }
+    }
+    let mut walk_max = 0;
+    if n > 0 {
+        walk_arrivals(g, 0, 0, &mut vec![false; n], &mut vec![false; n], &mut walk_max);
+    }
+    Facts { reach, edges, cyc, dangling, head_chain, dangling_edges, reach_edges, ref_pairs, max_dist, max_edge_dist, walk_max }
 }
 
 // ---------------------------------------------------------------------------------------
@@ -665,7 +700,10 @@ fn oracle(op: &Op, g: &Graph, f: &Facts, lim: usize, reply: &str) -> Vec<(&'stat
     let over = f.head_chain > lim;
     // the general notion: some reachable claim has no path of fewer than `lim` edges from the
     // root (wherever the long paths hang, whatever the labels): never Ok
-    let over_all = f.max_dist >= lim;
+    let over_all = f.max_dist >= lim || f.max_edge_dist >= lim;
+    // "nests deeper than the limit" as the validator walks it: the depth-first walk in ingredient
+    // order arrives somewhere (first visit or not) with `lim` claims above it
+    let walk_over = !f.cyc && f.walk_max >= lim;
     match op {
         Op::Gcrm { stop } => {
             if f.cyc && !(out == "cyclic" || out == "too-deep" || (*stop && out == "missing")) {
@@ -676,6 +714,12 @@ fn oracle(op: &Op, g: &Graph, f: &Facts, lim: usize, reply: &str) -> Vec<(&'stat
             }
             if over_all && !(out == "too-deep" || (f.cyc && out == "cyclic") || (*stop && out == "missing")) {
                 fails.push(("over-deep-accepted", format!("a claim at distance {} from the root (limit {lim}) but outcome {out}", f.max_dist)));
+            }
+            if walk_over && !(out == "too-deep" || (*stop && out == "missing")) {
+                fails.push(("walk-depth-limit-accepted", format!("the walk in ingredient order nests {} deep (limit {lim}) but outcome {out}", f.walk_max)));
+            }
+            if !f.cyc && f.walk_max < lim && out == "too-deep" {
+                fails.push(("depth-error-without-deep-walk", format!("the walk in ingredient order nests only {} deep (limit {lim}) but outcome {out}", f.walk_max)));
             }
             if out == "ok" {
                 // exact step counts of a completed walk: every reachable claim is expanded once,
@@ -736,11 +780,14 @@ fn oracle(op: &Op, g: &Graph, f: &Facts, lim: usize, reply: &str) -> Vec<(&'stat
         }
         Op::E2e { .. } => {
             // the statement itself: a cyclic, dangling or over-deep graph is never reported Valid
-            if reply == "clean" && (f.cyc || !f.dangling.is_empty() || over || over_all) {
+            if reply == "clean" && (f.cyc || !f.dangling.is_empty() || over || over_all || walk_over) {
                 fails.push(("malformed-reported-valid", format!("Reader reports Valid/Trusted for a graph with cycle={} dangling={:?} head_chain={} max_dist={}", f.cyc, f.dangling, f.head_chain, f.max_dist)));
             }
             if over_all && !(reply == "err:too-deep" || (f.cyc && reply == "err:cyclic")) {
                 fails.push(("over-deep-accepted", format!("a claim at distance {} from the root (limit {lim}) but Reader gives {reply}", f.max_dist)));
+            }
+            if walk_over && reply != "err:too-deep" {
+                fails.push(("walk-depth-limit-accepted", format!("the walk in ingredient order nests {} deep (limit {lim}) but Reader gives {reply}", f.walk_max)));
             }
             if f.cyc && !(reply == "err:cyclic" || reply == "err:too-deep") {
                 fails.push(("cycle-accepted", format!("reachable cycle but Reader gives {reply}")));
@@ -759,6 +806,9 @@ fn oracle(op: &Op, g: &Graph, f: &Facts, lim: usize, reply: &str) -> Vec<(&'stat
             if over_all && !(out == "too-deep" || (f.cyc && out == "cyclic")) {
                 fails.push(("over-deep-accepted", format!("a claim at distance {} from the root (limit {lim}) but outcome {out}", f.max_dist)));
             }
+            if walk_over && out != "too-deep" {
+                fails.push(("walk-depth-limit-accepted", format!("the walk in ingredient order nests {} deep (limit {lim}) but outcome {out}", f.walk_max)));
+            }
             if !rejected {
                 // the failure that keeps a dangling graph Invalid must be logged in the scope of
                 // the active claim: only such a status is exempt from the from_store filter
@@ -776,7 +826,7 @@ fn oracle(op: &Op, g: &Graph, f: &Facts, lim: usize, reply: &str) -> Vec<(&'stat
                     }
                 }
                 let flagged = log.iter().any(|e| ["M", "H", "C", "B"].contains(&&e[..1]));
-                if !flagged && (f.cyc || !f.dangling.is_empty() || over || over_all) {
+                if !flagged && (f.cyc || !f.dangling.is_empty() || over || over_all || walk_over) {
                     fails.push(("malformed-reported-clean", "cyclic/dangling/over-deep graph validated without a graph failure".into()));
                 }
             }
@@ -866,7 +916,10 @@ impl Exec {
     fn submit(&mut self, run: &mut Run, job: Job) {
         let f = facts(&job.g);
         let budget = std::time::Duration::from_millis(20_000 + 40 * (job.g.len() + f.edges) as u64);
-        let malformed = f.cyc || !f.dangling.is_empty() || f.head_chain > self.lim || f.max_dist >= self.lim;
+        let malformed = f.cyc || !f.dangling.is_empty() || f.head_chain > self.lim || f.max_dist >= self.lim || f.walk_max >= self.lim;
+        if !f.cyc && f.walk_max >= self.lim && f.max_dist < self.lim {
+            run.count("graph_deep_walk_with_short_path");
+        }
         run.count(&format!("graphs_{}", job.tag));
         run.count(if f.cyc { "graph_cyclic" } else { "graph_acyclic" });
         if !f.dangling.is_empty() {
@@ -1105,6 +1158,56 @@ fn deep_off_tree(d: usize, m: usize) -> Graph {
     g
 }
 
+/// Chain 0 → 1 → … → m, and the root also references claim `j` of the chain directly, listed
+/// before (`first`) or after the chain: `j` has a short path, yet the chain nests `j` deep.
+fn chain_shortcut(m: usize, j: usize, first: bool) -> Graph {
+    let mut g = chain(m + 1);
+    let e = edge(0, j, m + 1);
+    if first {
+        g[0].ings.insert(0, e);
+    } else {
+        g[0].ings.push(e);
+    }
+    g
+}
+
+/// Diamond over a long chain: root → a directly and root → b1 → … → bk → a, a → leaf; the short
+/// side listed first or last.
+fn long_diamond(k: usize, first: bool) -> Graph {
+    // 0 root, 1..=k the b's, k+1 = a, k+2 = leaf
+    let n = k + 3;
+    let mut g: Graph = (0..n).map(|_| node(vec![])).collect();
+    g[0].ings.push(edge(0, 1, n));
+    for b in 1..=k {
+        g[b].ings.push(edge(b, b + 1, n));
+    }
+    g[k + 1].ings.push(edge(k + 1, k + 2, n));
+    let e = edge(0, k + 1, n);
+    if first {
+        g[0].ings.insert(0, e);
+    } else {
+        g[0].ings.push(e);
+    }
+    g
+}
+
+/// the graphs in which a deeply nested claim also has a short path, around the limit
+fn short_and_deep(lim: usize) -> Vec<(Graph, &'static str)> {
+    let mut v = vec![];
+    for first in [true, false] {
+        for m in [lim - 1, lim, lim + 1] {
+            v.push((chain_shortcut(m, m, first), "chain_shortcut_to_tail"));
+        }
+        for (m, j) in [(lim + 5, lim - 1), (lim + 5, lim), (lim + 5, lim + 1), (2 * lim - 4, lim - 2)] {
+            v.push((chain_shortcut(m, j, first), "chain_shortcut_to_middle"));
+        }
+        for k in [lim - 3, lim - 2, lim - 1, lim] {
+            v.push((long_diamond(k, first), "diamond_over_long_chain"));
+        }
+    }
+    v
+}
+
 /// `levels` levels of two claims, each claim referencing both claims of the next level
 /// (2^levels paths to the bottom); with `dangling` the bottom claims reference a missing manifest.
 /// With the memo map / visited set every claim is expanded once: the exact step counts of the
@@ -1211,6 +1314,11 @@ pub fn run(run: &mut Run, rng: &mut Rng) {
         }
         ex.submit(run, Job { g: permute(rng, &chain(m + 1)), ops: all_ops(), tag: "chain_permuted" });
     }
+    // a deeply nested claim that also has a short path, listed before / after the long one
+    for (g, tag) in short_and_deep(lim) {
+        ex.submit(run, Job { g: permute(rng, &g), ops: all_ops(), tag });
+        ex.submit(run, Job { g, ops: all_ops(), tag });
+    }
     // exponentially many paths, every claim expanded once
     for levels in [3usize, 8, 12] {
         ex.submit(run, Job { g: ladder(levels, false), ops: all_ops(), tag: "ladder" });
@@ -1288,6 +1396,12 @@ pub fn run(run: &mut Run, rng: &mut Rng) {
         ex.submit(run, e2e(permute(rng, &deep_off_branch(1, m)), "e2e_deep_off_later_ingredient_permuted"));
         if thorough {
             ex.submit(run, e2e(permute(rng, &deep_off_tree(3, m - 3)), "e2e_deep_off_tree_leaf_permuted"));
+        }
+    }
+    for (k, (g, _)) in short_and_deep(lim).into_iter().enumerate() {
+        // quick: the shortcut-first half and every other one of the rest
+        if thorough || k < 11 || k % 2 == 0 {
+            ex.submit(run, e2e(g, "e2e_short_and_deep"));
         }
     }
     ex.submit(run, e2e(ladder(8, true), "e2e_ladder_dangling_bottom"));
